@@ -8,6 +8,9 @@
 (*     (BioScanDefs!NextMove, run to its end: RunFrom);                    *)
 (*   kept = the results of minimal score; all of them (distinct), or the   *)
 (*     LAST one when at most one ranking is requested.                     *)
+(* With starting algorithms the departures are their consensus rankings    *)
+(* (first ranking of each, in the order of the list, duplicates dropped)   *)
+(* and the all-tied ranking is NOT added (BioResultFrom).                  *)
 (* The properties (C08, C09) only say that the results are local optima    *)
 (* no worse than the departures; this definition says WHICH rankings come  *)
 (* back, and is compared with the library as drift.                        *)
@@ -27,14 +30,15 @@ DistinctInOrder(s, k) ==
     IF k > Len(s) THEN <<>>
     ELSE (IF \E j \in 1..(k - 1) : s[j] = s[k] THEN <<>> ELSE <<s[k]>>) \o DistinctInOrder(s, k + 1)
 
-BioResult(D, U, C, idOf, flagOne, thr) ==
+\* starts: the rankings (bucket orders of U) the search departs from, in order; allTied: the all-tied ranking is added
+BioResultFrom(starts, allTied, U, C, idOf, flagOne, thr) ==
     LET n == Cardinality(U)
         elemOf == [i \in 1..n |-> CHOOSE x \in U : idOf[x] = i - 1]
         Cid == [p \in (1..n) \X (1..n) |-> C[<<elemOf[p[1]], elemOf[p[2]]>>]]
         Elems == [j \in 1..n |-> j]
         vecOf(r) == [i \in 1..n |-> BIdx(r, elemOf[i]) - 1]
-        uni == [k \in DOMAIN D |-> vecOf(Unify(D[k], U))]
-        deps == DistinctInOrder(uni, 1) \o << [i \in 1..n |-> 0] >>
+        vecs == [k \in DOMAIN starts |-> vecOf(starts[k])]
+        deps == DistinctInOrder(vecs, 1) \o (IF allTied THEN << [i \in 1..n |-> 0] >> ELSE <<>>)
         fin == [k \in DOMAIN deps |-> RunFrom(deps[k], Elems, 1, Cid, thr, 500)]
         sc == [k \in DOMAIN fin |-> ScoreK(KeyV(fin[k]), Cid, 1..n)]
         best == Min({sc[k] : k \in DOMAIN fin})
@@ -42,6 +46,10 @@ BioResult(D, U, C, idOf, flagOne, thr) ==
         chosen == IF flagOne THEN {fin[Max(bestIdx)]} ELSE {fin[k] : k \in bestIdx}
         back(w) == LET o == OrderOf(w) IN [b \in DOMAIN o |-> {elemOf[i] : i \in o[b]}]
     IN {back(w) : w \in chosen}
+
+\* without starting algorithms: the unified input rankings, then the all-tied ranking
+BioResult(D, U, C, idOf, flagOne, thr) ==
+    BioResultFrom([k \in DOMAIN D |-> Unify(D[k], U)], TRUE, U, C, idOf, flagOne, thr)
 
 IdsUsable(ids, U) == /\ U # {} /\ Len(ids) >= Max(U)
                      /\ {ids[x] : x \in U} = 0..(Cardinality(U) - 1)
